@@ -410,6 +410,8 @@ def build(template_path, repo, variant="strict"):
                     out.append(("#[derive(%s)]" % (emit or ", ".join(want)), ("gen", None, 0)))
                     log.append(("R1", where, "derive(%s)" % ", ".join(have), "derive(%s)" % (emit or ", ".join(want))))
             for (t, o) in _toks_to_lines(toks, relfile, src_line_of):
+                if opts.get("derive") and t.strip().startswith("#[derive(Clone, Copy)]"):
+                    t = t.replace("#[derive(Clone, Copy)]", "", 1)   # the unit's derive option replaces R1's default
                 out.append((t, ("repo", relfile, o) if isinstance(o, int) else ("gen", None, 0)))
             res.functions.append({"name": item.name, "selector": selector, "file": relfile,
                                   "lines": "%d-%d" % (item.line0, item.line1), "sha256": item.sha,
